@@ -270,6 +270,7 @@ func (cr *caseRunner) run(s scenario) {
 		for _, vq := range variants {
 			vs := s
 			vs.Raw, vs.Query = vq, "raw"
+			vs.PrimeQ = q
 			vo, _ := runEntry(c, vs, vq)
 			ev.Vars = append(ev.Vars, cr.in.answerID(c, vo.hits))
 			ev.VarQs = append(ev.VarQs, vq)
